@@ -71,3 +71,20 @@ add("C14", "exploration", "property-based differential testing (rapid) of H265Pa
     "NAL unit sequences around every threshold are packetised under all option combinations; each payload is parsed by the reference and by H265Packet (all accessors compared), shapes (single, AP minima, FU S/E/FuType/F/layer/TID, DONL placement) and byte-exact reassembly are checked; reference-built single/AP/FU/PACI(+TSCI) payloads with DONL/DOND and every truncation go through H265Packet; all 2^16 payload headers, 2^8 FU headers, 2^16 PACI words and TSCI triples (2^24 thorough) are enumerated. One known finding (DONL in every FU, pinned by a unit test) is excluded by exact signature and counted.",
     "Trusted base: harness/ref/h265rtp. DON values are not asserted, only field placement; AP header F bit not asserted.",
     "DESIGN.md 4/C14")
+
+add("C08", "exploration", "property-based fuzzing of all payloaders (rapid; grammar-seeded and mutated inputs, degenerate MTUs) with an arena/guard-byte oracle and a twin/scribble metamorphic relation for ownership",
+    "Call sequences on one payloader instance over fourteen payloader configurations; inputs sit between guard bytes with spare capacity, are overwritten after every call, and a twin instance is fed pristine copies: no panic, fragment sizes within the MTU, non-empty fragments, arena untouched, earlier fragments unchanged and later outputs equal to the twin's.",
+    "Ownership is observed through behaviour (overwrite-and-compare), not by inspecting pointers; Opus is exempt from the MTU bound by design.",
+    "DESIGN.md 4/C08")
+add("C09", "exploration", "property-based fuzzing of all depacketizers (rapid; valid trains, reference-built payloads, mutants, nil/empty) with fresh-vs-reused and twin/scribble relations; exhaustive enumeration of all short byte strings",
+    "Step sequences Unmarshal/IsPartitionHead/IsPartitionTail over twelve receiver configurations: no panic, input unmodified; per-packet formats must give the same result, error-ness and metadata as a fresh receiver; H264Packet and AV1Depacketizer get each payload in a buffer that is overwritten right after the call and must agree with a twin fed pristine copies at every step; every byte string of length <=2 (quick) / <=3 (thorough) is fed to every receiver, fresh and with a pending fragment.",
+    "Metadata after a failed Unmarshal and reuse semantics of the deprecated AV1Packet are not asserted (panic-freedom only); the zero-allocation H264Packet mode returns its input by design and is only checked for panics.",
+    "DESIGN.md 4/C09")
+add("C13", "exploration", "property-based differential testing (rapid) of AV1Payloader/AV1Depacketizer/AV1Packet+frame.AV1 against an independent AV1 RTP aggregation parser and reassembler; exhaustive enumeration of OBU headers (2^16) and, in the thorough tier, of all 2^32 LEB128 values",
+    "OBU sequences (all types, extension ids from a small alphabet, sizes at every LEB128 and MTU boundary, size field omitted on the last OBU, non-minimal size encodings) are packetised; an independent parser checks W/Z/Y/size-flag/empty-element/layer rules and the MTU, an independent reassembler recovers the OBUs byte-exactly, and both library depacketizer paths must reproduce them; LEB128 and OBU header codecs are compared with independent implementations over their complete domains.",
+    "Trusted base: harness/ref/av1rtp, ref/leb128 (my reading of the AV1 RTP specification). Cases are bounded to about 600 packets because the library's reassemblers copy the growing fragment per packet.",
+    "DESIGN.md 4/C13")
+add("C15", "fault_enumeration", "exhaustive enumeration of delivery subsets (all 2^n loss patterns of a generated frame of up to 10 packets) inside rapid-generated (frame A, frame B, garbage prefix) cases, differential against a fresh depacketizer",
+    "For each generated case every subset of frame A's packets is delivered in order (after optional garbage), then the intact frame B; every packet of B must decode exactly as on a fresh receiver (bytes, error-ness, AV1 Z/Y/N). The loss patterns of a frame are enumerated completely, the frames themselves are sampled.",
+    "Frames of more than 10 packets get 1024 drawn subsets instead of all; reordering and duplication are outside the property.",
+    "DESIGN.md 4/C15")
